@@ -54,6 +54,8 @@ func main() {
 		corr(os.Args[2:])
 	case "replay":
 		replay(os.Args[2:])
+	case "witnesses":
+		witnesses(os.Args[2:])
 	default:
 		fmt.Fprintln(os.Stderr, "unknown mode")
 		os.Exit(2)
@@ -331,5 +333,57 @@ func explore() {
 	})
 	for _, k := range keys {
 		fmt.Printf("%-12s %-14s %-5s %-50s %d\n", k.mut, k.op, k.res, k.frame, count[k])
+	}
+}
+
+// witnesses: for every class of ill-formed shape, the first generated file and structural edit on which the
+// real code panics; written as corpus files (development aid: the committed corpus/C06/ops-*.json came from it).
+func witnesses(args []string) {
+	if len(args) < 1 {
+		fmt.Fprintln(os.Stderr, "usage: c06ops witnesses DIR")
+		os.Exit(2)
+	}
+	want := []struct {
+		name, kind string
+		muts       []string
+		ops        []string
+		note       string
+	}{
+		{"nil-batcher", "mixed", []string{"insnilbatch:1:0:0"}, []string{"Validate"}, "File.Batches holds a nil Batcher: File.IsADV calls GetHeader() on it"},
+		{"nil-batch-header", "mixed", []string{"nohdr:0:0:0"}, []string{"BatchValidate"}, "Batch<SEC>.Validate on a batch without header: verify() reads batch.Header"},
+		{"nil-batch-header-after-adv", "adv", []string{"nohdr:1:0:0"}, []string{"Validate"}, "ADV file: File.IsADV stops at the first ADV batch, ValidateWith reads GetHeader() of the next one"},
+		{"nil-batch-control", "mixed", []string{"noctl:0:0:0"}, []string{"BatchValidate"}, "Batch<SEC>.Validate on a batch without BatchControl: isFieldInclusion calls batch.Control.Validate()"},
+		{"nil-adv-control", "adv", []string{"noadv:0:0:0"}, []string{"Create"}, "ADV batch without ADVBatchControl: createFileADV reads GetADVControl()"},
+		{"nil-entry", "mixed", []string{"insnil:0:1:0"}, []string{"Validate"}, "nil *EntryDetail in Batch.Entries: isFieldInclusion calls entry.Validate()"},
+		{"nil-addenda05", "addenda", []string{"nila05:0:0:0"}, []string{"Validate"}, "nil *Addenda05 in EntryDetail.Addenda05: isFieldInclusion calls addenda05.Validate()"},
+		{"nil-iat-header", "iat", []string{"inohdr:0:0:0", "nobatches:0:0:0"}, []string{"Create"}, "IATBatch without header: File.Create reads GetHeader().BatchNumber"},
+		{"nil-iat-control", "iat", []string{"inoctl:0:0:0", "nobatches:0:0:0"}, []string{"Create"}, "IATBatch without control: File.Create reads GetControl().BatchNumber"},
+		{"nil-iat-entry", "iat", []string{"inilentry:0:0:0", "nobatches:0:0:0"}, []string{"WriteBypass"}, "nil *IATEntryDetail: writeLine calls entry.String()"},
+		{"nil-iat-addenda", "iat", []string{"inil17:0:0:0", "nobatches:0:0:0"}, []string{"BatchCreate"}, "nil *Addenda17: IATBatch.build writes addenda17.SequenceNumber"},
+	}
+	for _, w := range want {
+		found := false
+		for seed := uint64(1); seed <= 60 && !found; seed++ {
+			c := ShapeCase{Seed: seed, Kind: w.kind, Muts: w.muts, Ops: w.ops, Note: w.note}
+			ok := true
+			f := buildSeed(seed, w.kind)
+			for _, m := range w.muts {
+				mm, _ := parseMut(m)
+				ok = ok && applyMut(f, mm)
+			}
+			if !ok {
+				continue
+			}
+			_, v, _ := runCase(c)
+			if v.res == "PANIC" {
+				b, _ := json.MarshalIndent(c, "", " ")
+				os.WriteFile(filepath.Join(args[0], "ops-"+w.name+".json"), append(b, '\n'), 0o644)
+				fmt.Printf("%-28s seed %d  %s\n", w.name, seed, v.frame)
+				found = true
+			}
+		}
+		if !found {
+			fmt.Printf("%-28s NO WITNESS\n", w.name)
+		}
 	}
 }
